@@ -1067,6 +1067,10 @@ class Interp:
                     return C(obj.cls)
                 if name == "__dict__":
                     return LDict([(C(k), v) for k, v in obj.attrs.items()])
+                if getattr(self, "frame_only", False):
+                    # frame-only: an object built through its constructor's frame contract has no modelled fields; reading one
+                    # gives an unknown value (raising here would end the path and leave the stores after it unchecked)
+                    return Z(V.fresh(f"{obj.cls.__name__}.{name}"))
                 raise PyRaise("AttributeError", msg=f"{obj.cls.__name__}.{name}")
             return self.bind_class_attr(raw, obj, obj.cls)
         if isinstance(obj, SuperProxy):
